@@ -15,7 +15,7 @@ From Coq Require Import String NArith ZArith QArith Bool Arith List Permutation.
 From GT Require Import Base.UTree Spec.Obs Spec.ConsensusSpec Model.Reroot Model.Index Model.EdgeIndex Model.Compare Model.Consensus
      Proofs.IndexSplit Proofs.CompareTree Proofs.CompareMain Proofs.ConsensusFloat Proofs.ConsensusCount
      Proofs.ConsensusMain Proofs.ConsensusFreq Proofs.CompareDomain Proofs.CompareBridge Proofs.ConsensusRooted.
-From GT Require Import Spec.Unrooted Proofs.Unroot Proofs.ConsensusRound Proofs.ConsensusCompat.
+From GT Require Import Spec.Unrooted Proofs.Unroot Proofs.ConsensusRound Proofs.ConsensusCompat Proofs.CompareTotal Proofs.ConsensusFold.
 Import ListNotations.
 Local Close Scope Q_scope.
 Local Open Scope string_scope.
@@ -291,3 +291,32 @@ Theorem C09_kept_splits_compatible :
     compatible all k1 k2.
 Proof. exact kept_splits_compatible. Qed.
 Print Assumptions C09_kept_splits_compatible.
+
+(** * totality of the counting loop over the real hash index (fewer than 2^58 branches in the
+    whole collection): it returns, with the entries of the association-list instance up to order *)
+Theorem C09_cons_counts_hm_eq :
+  forall ts, collection_ok ts -> length (keys_from 0 ts) < 2 ^ 58 ->
+    exists kvs, cons_counts_hm ts = Some (Ok (kvs, Z.of_nat (length ts))) /\
+                Permutation kvs (add_list [] (keys_from 0 ts)).
+Proof. exact cons_counts_hm_eq. Qed.
+Print Assumptions C09_cons_counts_hm_eq.
+
+(** * construction of the consensus tree, the fold, CONDITIONAL on the single-step specification of
+    one insertion (AddBipartition at the LCA adds exactly the requested bipartition with its data
+    and keeps the others) -- the hypothesis [STEP] below, which is NOT proved for the
+    neighbour-list graph of Model/Consensus.v (there the construction is checked structurally by
+    the correspondence on every case).  Given it, inserting pairwise compatible, pairwise
+    distinct bipartitions one after the other never fails and yields exactly them (with their
+    data) plus those of the initial tree; "pairwise compatible" is [C09_kept_splits_compatible]. *)
+Theorem C09_ins_all_spec :
+  forall (T D : Type) (all : list string) (sp : T -> list (ConsensusFold.key * D))
+         (ins : T -> ConsensusFold.key * D -> option T),
+    (forall t kd, fits T D all sp t (fst kd) ->
+                  exists t', ins t kd = Some t' /\ forall x, In x (sp t') <-> x = kd \/ In x (sp t)) ->
+    forall l t,
+      NoDup (map fst l) ->
+      (forall kd, In kd l -> fits T D all sp t (fst kd)) ->
+      (forall kd kd', In kd l -> In kd' l -> fst kd <> fst kd' -> compatible all (fst kd) (fst kd')) ->
+      exists t', ins_all T D ins t l = Some t' /\ forall x, In x (sp t') <-> In x l \/ In x (sp t).
+Proof. exact ins_all_spec. Qed.
+Print Assumptions C09_ins_all_spec.
